@@ -232,8 +232,13 @@ func readerContainsAny(r io.Reader, subslices ...[]byte) bool {
 		}
 
 		if n > 0 {
+			// only search the part of the buffer that holds data read from r
+			end := n
+			if i != 1 {
+				end += halflen
+			}
 			for _, sl := range subslices {
-				if bytes.Contains(buff, sl) {
+				if len(sl) > 0 && bytes.Contains(buff[:end], sl) {
 					return true
 				}
 			}
